@@ -1046,3 +1046,64 @@ func (w *Workload) opDisputeRound(h int64) (*Intent, bool) {
 	}
 	return nil, false
 }
+
+// opSplitReports: one reporter reports two open rounds in two transactions of the same block (consecutive sequence
+// numbers) and, between the two, somebody changes the stake behind it (a selector delegates more, or a new selector
+// joins): the two reports of one block carry different stake snapshots.
+func (w *Workload) opSplitReports(h int64) (*Intent, bool) {
+	reps := w.v.Reporters()
+	var open []string
+	for _, q := range w.v.Queries() {
+		if q.Meta.Expiration >= uint64(h) && (q.Meta.Amount.IsPositive() || q.Meta.CycleList) {
+			open = append(open, "raw:"+fmt.Sprintf("%x", q.Meta.QueryData))
+		}
+	}
+	if len(reps) == 0 || len(open) == 0 {
+		return nil, false
+	}
+	sels := w.v.Selectors()
+	for _, i := range w.r.Perm(len(reps)) {
+		rp := reps[i]
+		if !w.usable(rp.Actor) {
+			continue
+		}
+		q1 := Pick(w.r, open)
+		q2 := Pick(w.r, open)
+		if q2 == q1 {
+			q2 = fmt.Sprintf("dep:%d", w.r.Range(1, 5))
+		}
+		// the stake change in between
+		var mid *Intent
+		for _, si := range w.r.Perm(len(sels)) {
+			s := sels[si]
+			if string(s.Reporter) == string(rp.Addr) && s.Actor != rp.Actor && w.usable(s.Actor) {
+				bal := w.v.Balance(w.acc().Addr(s.Actor))
+				if bal.GT(math.NewInt(2_000_000)) {
+					mid = w.newIntent(s.Actor, MsgSpec{K: "delegate", Val: w.randomVal(), N: w.stakeAmount(bal.SubRaw(5000))})
+					break
+				}
+			}
+		}
+		if mid == nil {
+			have := map[string]bool{}
+			for _, s := range sels {
+				have[string(s.Addr)] = true
+			}
+			for _, ai := range w.r.Perm(len(w.acc().Actors)) {
+				if w.usable(ai) && ai != rp.Actor && !have[string(w.acc().Addr(ai))] && w.v.BondedStakeOf(w.acc().Addr(ai)).IsPositive() {
+					mid = w.newIntent(ai, MsgSpec{K: "select_reporter", T: rp.Actor})
+					break
+				}
+			}
+		}
+		if mid == nil {
+			continue
+		}
+		second := w.newIntent(rp.Actor, MsgSpec{K: "submit_value", Q: q2, V: w.valueFor(w.canonName(q2))})
+		second.SeqDelta = 1
+		second.Follow = true
+		w.extra = append(w.extra, mid, second)
+		return w.newIntent(rp.Actor, MsgSpec{K: "submit_value", Q: q1, V: w.valueFor(w.canonName(q1))}), true
+	}
+	return nil, false
+}
